@@ -225,10 +225,12 @@ Qed.
 Lemma slice_mid : forall pre s post,
   slice (zlen pre) (zlen pre + zlen s) (pre ++ s ++ post) = s.
 Proof.
-  intros pre s post. unfold slice, zlen.
-  replace (Z.to_nat (Z.of_nat (length pre) + Z.of_nat (length s) - Z.of_nat (length pre)))
-    with (length s) by lia.
-  rewrite Nat2Z.id, skipn_app_exact, firstn_app_exact. reflexivity.
+  intros pre s post. unfold slice. cbv zeta.
+  assert (E1 : Z.to_nat (Z.min (zlen pre + zlen s - zlen pre) (zlen (pre ++ s ++ post))) = length s)
+    by (unfold zlen; rewrite !app_length; lia).
+  assert (E2 : Z.to_nat (Z.min (zlen pre) (zlen (pre ++ s ++ post))) = length pre)
+    by (unfold zlen; rewrite !app_length; lia).
+  rewrite E1, E2, skipn_app_exact, firstn_app_exact. reflexivity.
 Qed.
 
 Lemma cut_concat : forall segs s0 src pre, src = pre ++ concat (s0 :: segs) ->
